@@ -47,6 +47,8 @@ var c15CacheMethods = []string{
 	"Del", "DelCtx", "Get", "GetCtx", "Set", "SetCtx", "SetWithExpire", "SetWithExpireCtx",
 	"Take+ok", "Take+err", "Take+nf", "TakeCtx+ok", "TakeCtx+err", "TakeCtx+nf",
 	"TakeWithExpire+ok", "TakeWithExpire+err", "TakeWithExpireCtx+ok", "TakeWithExpireCtx+nf",
+	// the Ctx entry points with a context that is already cancelled: the key is dispatched all the same
+	"GetCtx+cancel", "DelCtx+cancel", "SetCtx+cancel", "TakeCtx+cancel", "TakeWithExpireCtx+cancel", "SetWithExpireCtx+cancel",
 }
 
 // c15ConfGen generates one configuration; classes:
@@ -286,6 +288,11 @@ func c15CallCache(c Cache, method string, keys []string) (ret string) {
 	name, variant := method, ""
 	if i := strings.IndexByte(method, '+'); i >= 0 {
 		name, variant = method[:i], method[i+1:]
+	}
+	if variant == "cancel" {
+		c, cancel := context.WithCancel(ctx)
+		cancel()
+		ctx = c
 	}
 	boom := errors.New("db down")
 	query := func(v any) error {
